@@ -367,7 +367,13 @@ func TestAHTModel(t *testing.T) {
 				c.Descf("X%d", sz)
 				checkAll(sz <= 40)
 			},
-			"": func(rt *rapid.T) { checkAll(false) },
+			"": func(rt *rapid.T) {
+				// reading the last payload makes the tree sync its buffered entries: half of the steps are left
+				// unobserved so that appends, resets and re-appends also meet while entries are still buffered
+				if rapid.Bool().Draw(rt, "observe") {
+					checkAll(false)
+				}
+			},
 		})
 		defer removeAll(dir)
 		checkAll(len(payloads) <= 64)
